@@ -1,8 +1,8 @@
 #!/verif/.venv/bin/python
 # Replay of a solver counterexample against the unmodified code (no shims).
-# property=C12 kernel=coords label=k1:accepted_register_fits
+# property=C12 kernel=maxconn label=k4:max_connectivity_register_is_accepted
 import sys
 sys.path[:0] = ['/repo' + "/pulser-core", '/repo' + "/pulser-simulation", "/verif"]
 from symx.replay import replay
-sys.exit(replay(check='checks.c12', kernel='coords', shape={'dims': 3, 'n': 1, 'nsym': 1, 'mind': True, 'maxr': True, 'maxn': False},
-                assignment={'min_atom_distance': '0/1', 'max_radial_distance': '1/1', 'x0_0': '1/1', 'x0_1': '1/1', 'x0_2': '0/1'}, label='k1:accepted_register_fits'))
+sys.exit(replay(check='checks.c12', kernel='maxconn', shape={'n': 2, 'spacing': True, 'maxr': True},
+                assignment={'spacing': '5/1', 'max_radial_distance': '2/1'}, label='k4:max_connectivity_register_is_accepted'))
